@@ -681,6 +681,9 @@ def make_shape(spec):
             out.append(("purity/%s" % e.name, m))
         for m in obs["determinism"]:
             out.append(("determinism/%s" % e.name, m))
+        if e.name.startswith("transform.apply_transform.apply"):
+            for m in reused_closure(S0):
+                out.append(("determinism/%s" % e.name, m))
         seen = {}
         for k, m in out:
             seen.setdefault(k, []).append(m)
@@ -689,6 +692,31 @@ def make_shape(spec):
 
     kl = "shape/%s/%s" % (e.name, "+".join(vary) if vary else "-")
     return Case(spec, line, impl, mode="rat", klass=kl, trivial=False, oracle=oracle, compare=compare)
+
+
+def reused_closure(matrix):
+    """the function `apply_transform(m)` returns is a public callable of its own: a caller keeps it and calls it many
+    times, with points and with vectors, with stacks of the same and of other sizes.  Every one of those calls must
+    answer what a freshly made function answers for the same arguments."""
+    from polliwog.transform import apply_transform
+    f = apply_transform(np.array(matrix))
+    pts = np.array([[1.0, 2.0, 3.0], [-4.0, 0.5, 6.0]])
+    one = np.array([0.25, -1.5, 2.0])
+    plan = [(pts, {"treat_input_as_vector": True}), (pts, {}), (pts, {"discard_z_coord": True}), (one, {"treat_input_as_vector": True}),
+            (one, {}), (pts[:1], {}), (pts, {"treat_input_as_vector": True, "discard_z_coord": True}), (pts, {})]
+    out = []
+    for i, (p, kw) in enumerate(plan):
+        try:
+            got = f(p.copy(), **kw)
+            want = apply_transform(np.array(matrix))(p.copy(), **kw)
+        except Exception as ex:  # noqa: BLE001
+            out.append("call %d of a kept apply_transform function raised %s" % (i, type(ex).__name__))
+            break
+        if not np.array_equal(np.asarray(got), np.asarray(want), equal_nan=True):
+            out.append("a kept apply_transform(m) function answers %r for (%r, %r) as its call number %d, a fresh one answers %r"
+                       % (np.asarray(got).tolist(), p.tolist(), kw, i, np.asarray(want).tolist()))
+            break
+    return out
 
 
 # ---- stack-is-map -----------------------------------------------------------------------------------
